@@ -1,7 +1,7 @@
 (* Property C10 — path addressing is exact.  Only statements and [exact]; proofs live in Proofs/KeyPath*.v, Proofs/Hier*.v. *)
 From PG Require Import Common.Tactics Model.KeyPath Model.Hier
   Proofs.KeyPathParse Proofs.KeyPathArith Proofs.KeyPathOrder
-  Proofs.KeyPathSetBase Proofs.KeyPathSetIter Proofs.KeyPathSetThm Proofs.HierTraverse Proofs.HierFlatten.
+  Proofs.KeyPathSetBase Proofs.KeyPathSetIter Proofs.KeyPathSetThm Proofs.KeyPathSetEq Proofs.HierTraverse Proofs.HierFlatten.
 
 (* 1. A key path of admissible keys (integers; non-empty strings with balanced brackets) prints to a string
       that parses back to the same keys.  Any number of keys, any lengths. *)
@@ -93,6 +93,26 @@ Theorem C10_set_dollar_refuted :
   exists t, add_go {| q_dollar := true |} false [KStr [c_dollar]] (TDict []) = Some (TDict t, true) /\ paths t = [[]] /\ contains_go {| q_dollar := true |} [] (TDict t) = Some true.
 Proof. exact dollar_witness. Qed.
 Print Assumptions C10_set_dollar_refuted.
+
+(*    s1 == s2 (dict equality of the tries) holds exactly when the two sets have the same members. *)
+Theorem C10_set_eq : forall q t s, twf q t -> twf q s ->
+  (teq (TDict t) (TDict s) = true <-> forall p, cleanp q p -> mem q p t = mem q p s).
+Proof. exact eq_spec. Qed.
+Print Assumptions C10_set_eq.
+
+(*    has_prefix(p): true exactly when p is the root path (also on the empty set, as the code is) or some member extends p;
+      subtree(p), p not the root: None when no member extends p, else the set of the remainders. *)
+Theorem C10_set_has_prefix : forall q p t, twf q t -> cleanp q p ->
+  exists b, has_prefix q p t = Some b /\ (b = true <-> p = [] \/ exists s, cleanp q s /\ mem q (p ++ s) t = true).
+Proof. exact has_prefix_spec. Qed.
+Print Assumptions C10_set_has_prefix.
+
+Theorem C10_set_subtree : forall q p t, twf q t -> cleanp q p -> p <> [] ->
+  (walk q p (TDict t) = Some None /\ forall s, mem q (p ++ s) t = false) \/
+  (exists ck, walk q p (TDict t) = Some (Some (TDict ck)) /\ twf q ck /\
+     forall s, In s (paths ck) <-> cleanp q s /\ mem q (p ++ s) t = true).
+Proof. exact subtree_spec. Qed.
+Print Assumptions C10_set_subtree.
 
 (* 6. Traversal.  [nodes v root] is the pre-order list of (path, node); at_path v s x says x is the node of v at the
       canonical path s (dict keys, list positions from 0); wfv = dict keys are distinct (as Python builds dicts).
